@@ -30,6 +30,7 @@ func peerMain(args []string) int {
 	var l *lite.DB
 	var h *sqlittle.DB
 	var held *sdb.Database
+	var env *Env
 	reply := func(format string, a ...interface{}) {
 		s := fmt.Sprintf(format, a...)
 		s = strings.ReplaceAll(s, "\n", "\\n")
@@ -154,6 +155,59 @@ func peerMain(args []string) int {
 				held.RUnlock()
 				held.Close()
 				held = nil
+			}
+			reply("ok")
+		// the working directory of this process (a handle opened by a relative name must not care)
+		case "chdir":
+			if err := os.Chdir(arg); err != nil {
+				reply("err %v", err)
+				continue
+			}
+			reply("ok")
+		// a handle with both API levels, for whole dumps
+		case "eopen":
+			if env != nil {
+				env.H.Close()
+				env = nil
+			}
+			e, err := OpenEnv(arg)
+			if err != nil {
+				reply("err %v", err)
+				continue
+			}
+			env = e
+			reply("ok")
+		case "edump":
+			if env == nil {
+				reply("err no handle")
+				continue
+			}
+			d, err := LittleDump(env.H, env.D)
+			if err != nil {
+				reply("err %v", err)
+				continue
+			}
+			reply("ok %s", d.String())
+		case "etables":
+			if env == nil {
+				reply("err no handle")
+				continue
+			}
+			if err := env.D.RLock(); err != nil {
+				reply("err %v", err)
+				continue
+			}
+			_, err := env.D.Tables()
+			env.D.RUnlock()
+			if err != nil {
+				reply("err %v", err)
+				continue
+			}
+			reply("ok")
+		case "eclose":
+			if env != nil {
+				env.H.Close()
+				env = nil
 			}
 			reply("ok")
 		case "lselect":
